@@ -31,14 +31,34 @@ sys.path.insert(0, os.path.join(VERIF, "lib"))
 
 
 def sh(cmd, cwd=None, env=None, timeout=None, inp=None):
+    """run a command in a process group of its own; on timeout the whole group is killed (harnesses spawn workers)"""
+    import signal
     t = time.time()
+    def _child():
+        # own process group (killed as a whole on timeout) and killed when this check process dies (no orphans)
+        os.setsid()
+        try:
+            import ctypes
+            ctypes.CDLL("libc.so.6").prctl(1, int(signal.SIGKILL))
+        except Exception:
+            pass
+    p = subprocess.Popen(cmd, cwd=cwd, env=env, stdin=subprocess.PIPE if inp is not None else None,
+                         stdout=subprocess.PIPE, stderr=subprocess.STDOUT, shell=isinstance(cmd, str),
+                         preexec_fn=_child)
     try:
-        p = subprocess.run(cmd, cwd=cwd, env=env, timeout=timeout, input=inp, stdout=subprocess.PIPE,
-                           stderr=subprocess.STDOUT, shell=isinstance(cmd, str))
-        out = p.stdout.decode("utf-8", "replace") if isinstance(p.stdout, bytes) else (p.stdout or "")
+        out, _ = p.communicate(input=inp, timeout=timeout)
+        out = out.decode("utf-8", "replace") if isinstance(out, bytes) else (out or "")
         return p.returncode, out, time.time() - t
-    except subprocess.TimeoutExpired as e:
-        out = e.stdout.decode("utf-8", "replace") if e.stdout else ""
+    except subprocess.TimeoutExpired:
+        try:
+            os.killpg(p.pid, signal.SIGKILL)
+        except Exception:
+            pass
+        try:
+            out, _ = p.communicate(timeout=10)
+        except Exception:
+            out = b""
+        out = out.decode("utf-8", "replace") if isinstance(out, bytes) else (out or "")
         return 124, out + "\n[timeout]", time.time() - t
 
 
